@@ -12,6 +12,7 @@ mod dbg;
 mod edit;
 mod enc;
 mod flag;
+mod evl;
 mod cmd;
 mod prng;
 mod progs;
@@ -114,6 +115,8 @@ fn main() {
         "C09P" => cli::run_c09p(&o),
         "C01" | "C04" => enc::run(&o),
         "C18" => flag::run(&o),
+        "C15" => evl::run_c15(&o),
+        "C17" => evl::run_c17(&o),
         other => {
             eprintln!("unknown property {other}");
             std::process::exit(2);
